@@ -192,7 +192,7 @@ func FocusGroups(t Tier) [][2]int {
 // a MAC, NEA2 next to NIA2, ...). Encoded in the focus list as pairBase + a*4096 + b.
 const pairBase = 1 << 24
 
-// many-task runs: one entry, 9-24 tasks (slot pools, rings and sharded caches only
+// many-task runs: one entry, 9-32 tasks (slot pools, rings and sharded caches only
 // misbehave when more callers are inside the library than they have slots).
 // Encoded as manyBase + entry index.
 const manyBase = 1 << 25
@@ -318,7 +318,13 @@ func PlanRun(seed, index uint64, tierName string) *Plan {
 		ntask := 2 + r.Intn(3)
 		many := fl[index] >= manyBase
 		if many {
-			ntask = 9 + r.Intn(16)
+			ntask = 9 + r.Intn(24)
+			if r.Bool() {
+				// one slow caller frozen in the middle of an operation while all the others
+				// complete theirs
+				p.Sched.Stall = r.Intn(ntask)
+				p.Sched.StallFor = 1 << 20
+			}
 		}
 		// cheap operations are repeated more often: about 1500 yields per task, at
 		// least Reps and at most 10 x Reps calls (costs come from the probe step)
@@ -328,12 +334,12 @@ func PlanRun(seed, index uint64, tierName string) *Plan {
 			if r.Bool() {
 				sd.pShare = 0 // all arguments distinct: many values meet in small tables
 				if fl[index]-manyBase < len(Cat.Cost) {
-					if n := 600000 / (Cat.Cost[fl[index]-manyBase] + 1); n > reps {
+					if n := 3000000 / (Cat.Cost[fl[index]-manyBase] + 1); n > reps {
 						reps = n
 					}
 				}
-				if reps > 14 {
-					reps = 14
+				if reps > 30 {
+					reps = 30
 				}
 			}
 		} else if fl[index] >= pairBase {
@@ -420,7 +426,7 @@ func PlanRun(seed, index uint64, tierName string) *Plan {
 	if r.Chance(35) {
 		p.Sched.HotOnly = []int{20, 40, 70}[r.Intn(3)]
 	}
-	if len(p.Tasks) > 2 && r.Chance(20) {
+	if p.Sched.Stall < 0 && len(p.Tasks) > 2 && r.Chance(20) {
 		p.Sched.Stall = r.Intn(len(p.Tasks))
 		p.Sched.StallFor = 1 + r.Intn(20)
 		if r.Chance(35) {
@@ -547,7 +553,11 @@ func runInst(in *Inst) {
 		}
 	}()
 	in.res = in.Do()
-	scribbleSpare(in.res)
+	if !strings.HasPrefix(in.Spec.Fam, "sh") {
+		// (not in shared-read mode: a view into the shared message is the caller's to
+		// leave alone, appending to it would be the caller's own mistake)
+		scribbleSpare(in.res)
+	}
 }
 
 // scribbleSpare uses every returned byte slice the way a caller may: it writes into
